@@ -139,11 +139,21 @@ def scenario_step(env, cfg):
         else:
             D = env.real("D", 1 / 8, 2)
         eq = pde.DiffusionPDE(diffusivity=D, bc=cfg.get("bc", "auto_periodic_neumann"))
+    elif cfg["pde"] == "expr:bc_ops:laplace":
+        # conservation rests on the operator-specific condition: the generic `bc` is not conservative
+        nonper = {"value": 0}
+        generic = {ax: ("periodic" if grid.periodic[i] else nonper) for i, ax in enumerate(grid.axes)}
+        eq = pde.PDE({"c": "laplace(0.75 * c - 0.25 * laplace(c))"}, bc=generic, bc_ops={"c:laplace": "auto_periodic_neumann"})
+    elif cfg["pde"] == "expr:bc_ops:divergence":
+        generic = {ax: ("periodic" if grid.periodic[i] else {"derivative": 1}) for i, ax in enumerate(grid.axes)}
+        eq = pde.PDE({"c": "divergence(0.75 * gradient(c))"}, bc=generic, bc_ops={"c:divergence": {ax: ("periodic" if grid.periodic[i] else {"value": 0}) for i, ax in enumerate(grid.axes)}})
     else:
         eq = pde.CahnHilliardPDE(interface_width=cfg.get("width", 0.75), bc_c=cfg.get("bc", "auto_periodic_neumann"), bc_mu=cfg.get("bc", "auto_periodic_neumann"))
     smod, scls = SOLVERS[cfg["solver"]]
     # maxerror = inf: the fixed-point iteration is accepted after its first pass (no data-dependent branch)
     kw = {"maxiter": 2, "maxerror": float("inf")} if cfg["solver"] in ("implicit", "crank-nicolson") else {}
+    if cfg.get("explicit_fraction") is not None:
+        kw["explicit_fraction"] = cfg["explicit_fraction"]
     solver = getattr(importlib.import_module(smod), scls)(eq, backend=cfg.get("backend", "numpy"), **kw)
     before = _integral(env, grid, np.array(state.data, copy=True))
     stepper = solver.make_stepper(state, dt)
@@ -241,6 +251,17 @@ def cases(tier, seed):
                         # degree 4 in (D, dt) with 1e-17-sized coefficients that z3 cannot bound within 60 s: outside the claim
                         continue
                     out.append(_case(f"step:{pde_name}:{solver}:{gname}:{backend}", "scenario_step", grid=grids[gname], pde=pde_name, solver=solver, backend=backend, n=2 if (solver in ("adams-bashforth", "euler") and pde_name == "diffusion") else 1))
+    # equations whose conservation rests on an operator-specific condition (bc_ops), and the Crank-Nicolson variants
+    for pde_name in ("expr:bc_ops:laplace", "expr:bc_ops:divergence"):
+        for gname in ("cart2:periodic-x", "cart1") if q else ("cart2:periodic-x", "cart1", "cart2"):
+            if pde_name.endswith("divergence") and gname not in ("cart1", "cart2", "cart2:periodic-x"):
+                continue
+            for backend in ("numpy", "numba"):
+                out.append(_case(f"step:{pde_name}:euler:{gname}:{backend}", "scenario_step", grid=grids[gname], pde=pde_name, solver="euler", backend=backend, n=1))
+    for alpha in (0.25, 0.5) if not q else (0.25,):
+        for gname in ("cart2:periodic-x", "sph:hole"):
+            for backend in ("numpy", "numba"):
+                out.append(_case(f"step:diffusion:crank-nicolson:explicit_fraction={alpha}:{gname}:{backend}", "scenario_step", grid=grids[gname], pde="diffusion", solver="crank-nicolson", backend=backend, n=1, explicit_fraction=alpha))
     out.append(_case("tracker:material-conservation", "scenario_tracker"))
     return out
 
